@@ -208,6 +208,13 @@ def check(G, conf, nodes_all, P, t, known_nodes, z):
         ok, got = guarded('has_node', lambda: G.has_node(n, **kw))
         if ok and bool(got) != (n in want_nodes):
             bad('has_node', 'boolean', got, n in want_nodes)
+    ok, got = guarded('has_node(unhashable)', lambda: G.has_node([known_nodes[0]], **kw) if t is None else False)
+    if ok and got is not False:
+        bad('has_node(unhashable)', 'boolean', got, False)
+    if t is None:
+        ok, got = guarded('dn.is_directed', lambda: dn.is_directed(G))
+        if ok and got is not directed:
+            bad('dn.is_directed', 'boolean', got, directed)
     cnts = [('number_of_nodes', lambda: G.number_of_nodes(**kw)), ('dn.number_of_nodes', lambda: dn.number_of_nodes(G, **kw))]
     if not directed:
         cnts.append(('order', lambda: G.order(**kw)))
